@@ -28,6 +28,13 @@ var execStats = map[string]int{}
 var execTime = map[int]time.Duration{}
 
 func c13Exec(which int, cs hx.Sx) hx.Sx {
+	// a case that does not come back (a cycle in the tree makes Encode spin) cannot be recovered
+	// in-process: stop the harness quickly; the runner reports the case in progress as a violation
+	wd := time.AfterFunc(60*time.Second, func() {
+		fmt.Fprintln(os.Stderr, "c13: the case in progress did not finish within 60 s (hang in the code under test)")
+		os.Exit(3)
+	})
+	defer wd.Stop()
 	if which >= 0 && which < 30 {
 		t0 := time.Now()
 		defer func() { execTime[which] += time.Since(t0) }()
